@@ -303,7 +303,16 @@ struct ConcSched {
     change_points: BTreeSet<u32>,
     step: u32,
     log: Arc<Mutex<SchedLog>>,
+    /// the task picked last and for how many steps in a row
+    streak: (u32, u32),
 }
+
+/// A caller that has run this many steps in a row while another one could run is taken off the
+/// CPU by the default choice too: every real scheduler is fair in the long run, and a correct
+/// busy-wait (a spin lock without `spin_loop()`, a retry loop on a compare-and-swap) would
+/// otherwise spin to the step bound under the no-preemption default and be reported as a caller
+/// that never gets an answer.
+const FAIRNESS_STREAK: u32 = 2_000;
 
 impl shuttle::scheduler::Scheduler for ConcSched {
     fn new_execution(&mut self) -> Option<shuttle::scheduler::Schedule> {
@@ -324,8 +333,9 @@ impl shuttle::scheduler::Scheduler for ConcSched {
         ids.sort_unstable();
         let cur = current.map(|c| usize::from(c) as u32);
         // the default: keep the running task; if it cannot run (or yields), the lowest id
+        let starving_others = matches!(cur, Some(c) if self.streak.0 == c && self.streak.1 >= FAIRNESS_STREAK);
         let default = match cur {
-            Some(c) if ids.contains(&c) && !(is_yielding && ids.len() > 1) => c,
+            Some(c) if ids.contains(&c) && !((is_yielding || starving_others) && ids.len() > 1) => c,
             _ => *ids.iter().find(|i| Some(**i) != cur || ids.len() == 1).unwrap_or(&ids[0]),
         };
         let step = self.step;
@@ -357,7 +367,7 @@ impl shuttle::scheduler::Scheduler for ConcSched {
                             self.prio.insert(*i, p);
                         }
                     }
-                    if self.change_points.contains(&step) {
+                    if self.change_points.contains(&step) || starving_others {
                         if let Some(c) = cur {
                             // demoted below everything
                             self.prio.insert(c, self.rng.below(1000));
@@ -367,6 +377,7 @@ impl shuttle::scheduler::Scheduler for ConcSched {
                 }
             }
         };
+        self.streak = if self.streak.0 == pick { (pick, self.streak.1 + 1) } else { (pick, 1) };
         {
             let mut l = self.log.lock().unwrap();
             l.picks.push(pick);
@@ -449,6 +460,7 @@ pub fn run_under(policy: Policy, sched_seed: u64, explicit: &[(u32, u32)], body:
         change_points,
         step: 0,
         log: log.clone(),
+        streak: (u32::MAX, 0),
     };
     crate::world::PANIC_INFO.with(|p| *p.borrow_mut() = None);
     let was_in_sim = crate::world::IN_SIM.with(|f| f.replace(true));
@@ -1096,6 +1108,21 @@ mod tests {
         assert_eq!(log.picks, log3.picks);
         assert!(!log3.diverged);
         assert!(bad3.load(std::sync::atomic::Ordering::SeqCst));
+    }
+
+    #[test]
+    fn a_busy_wait_without_a_hint_is_not_starved_by_the_default_schedule() {
+        let (log, p) = run_under(Policy::Explicit, 0, &[], || {
+            let flag = Arc::new(AtomicU64::new(0));
+            let f2 = flag.clone();
+            // the waiter is spawned first and runs first under the default choice
+            let waiter = shuttle::thread::spawn(move || while f2.load(Ordering::Acquire) == 0 {});
+            let setter = shuttle::thread::spawn(move || flag.store(1, Ordering::Release));
+            waiter.join().unwrap();
+            setter.join().unwrap();
+        });
+        assert!(p.is_none(), "{:?}", p);
+        assert!(log.picks.len() < 3 * FAIRNESS_STREAK as usize);
     }
 
     #[test]
